@@ -680,11 +680,12 @@ def run_impl(case):
             f.write(data)
     else:
         objs = case['objs'] if case['kind'] == 'small' else [doc_obj(case)] if is_doc else big_objs(case)
-        end = []
+        end, at_end = [], []
         rx.from_(objs).pipe(rjson.dump_to_file(path, compression=comp, encoding=enc, **kw)).subscribe(
             on_next=lambda i: end.append('next'), on_error=lambda e: end.append('error:' + type(e).__name__),
-            on_completed=lambda: end.append('completed'))
+            on_completed=lambda: (end.append('completed'), at_end.append(os.path.getsize(path) if os.path.exists(path) else -1)))
         obs['dump_end'] = end
+        obs['size_at_completion'] = at_end[0] if at_end else None
         want = ''.join(orjson.dumps(o).decode() + '\n' for o in objs)
         try:
             with open(path, 'rb') as f:
@@ -788,6 +789,10 @@ def oracle(case, obs):
         return None
     if 'raised' in obs:
         return {'sig': 'json:raised', 'what': 'raised %s: %s' % (obs['raised'], obs.get('msg'))}
+    if obs.get('size_at_completion') is not None and obs['size_at_completion'] != obs.get('fsize'):
+        # a consumer may read the file back from its on_completed callback
+        return {'sig': 'json:completed-before-file-complete', 'what': 'dump_to_file signalled completion when the file held '
+                '%s bytes; complete it holds %s' % (obs['size_at_completion'], obs.get('fsize'))}
     if obs.get('dump_end', ['completed']) != ['completed']:
         return {'sig': 'json:dump-failed', 'what': 'dump_to_file ended with %s' % obs['dump_end'][-2:]}
     if case['kind'] == 'doc':
